@@ -364,6 +364,32 @@ Proof.
   rewrite F1, F2, F3, F4, F5, F6, F7, F8, F9, F10. reflexivity.
 Qed.
 
+(* sBIT: one byte per channel (1, 3, 2 or 4 of them), each between 1 and the sample depth; bKGD: 1, 2 or 6 bytes; both stored verbatim *)
+Lemma codec_sbit s v : anc_has KPalette (the_info s) = false -> have_idat s = false -> anc_has KSbit (the_info s) = false ->
+  c_raw s = v -> zlen v <= budget s -> zlen v = sbit_expected (i_color (the_info s)) ->
+  Forall (fun b => 1 <= b <= (if i_color (the_info s) =? 3 then 8 else i_depth (the_info s))) v ->
+  exists s', parse_sbit s = (upd_info s' (anc_set KSbit v), Ok ENothing) /\ budget s' = budget s - zlen v.
+Proof.
+  intros Hp Hi Ha Hr Hb Hl Hv. unfold parse_sbit, reserve. rewrite Hp, Hi, Ha, Hr.
+  destruct (Z.leb_spec (zlen v) (budget s)) as [_|Hgt]; [|lia].
+  replace (c_raw (s <| budget := budget s - zlen v |>)) with (c_raw s) by (destruct s; reflexivity). rewrite Hr.
+  rewrite Hl, Z.eqb_refl. cbn [negb].
+  assert (E : existsb (fun b => (b <? 1) || ((if i_color (the_info s) =? 3 then 8 else i_depth (the_info s)) <? b)) v = false).
+  { apply not_true_is_false. intro Hex. apply existsb_exists in Hex. destruct Hex as (b & Hin & Hb2). rewrite Forall_forall in Hv. specialize (Hv b Hin). lia. }
+  rewrite E. eexists. split; [reflexivity|]. destruct s; reflexivity.
+Qed.
+
+Lemma codec_bkgd s v : anc_has KBkgd (the_info s) = false -> have_idat s = false ->
+  (i_color (the_info s) = 3 -> anc_has KPalette (the_info s) = true) ->
+  c_raw s = v -> zlen v = (if i_color (the_info s) =? 3 then 1 else if (i_color (the_info s) =? 0) || (i_color (the_info s) =? 4) then 2 else 6) ->
+  parse_bkgd s = (upd_info s (anc_set KBkgd v), Ok ENothing).
+Proof.
+  intros Ha Hi Hp Hr Hl. unfold parse_bkgd. rewrite Ha, Hi, Hr. cbn [negb andb].
+  destruct (Z.eqb_spec (i_color (the_info s)) 3) as [E3|N3].
+  - rewrite (Hp E3). cbn [negb andb]. rewrite Hl, Z.eqb_refl. reflexivity.
+  - cbn [andb]. rewrite Hl, Z.eqb_refl. reflexivity.
+Qed.
+
 (* first occurrence wins for the kinds documented so: a later instance changes nothing and raises nothing *)
 Lemma first_wins s :
   (anc_has KCicp (the_info s) = true -> parse_cicp s = (s, Ok ENothing)) /\
